@@ -4,6 +4,7 @@ import (
 	"fmt"
 	"go/ast"
 	"go/types"
+	"golang.org/x/tools/go/ssa"
 	"os"
 	"sort"
 )
@@ -107,6 +108,95 @@ func init() {
 			sort.Strings(names)
 			for _, n := range names {
 				fmt.Println(n)
+			}
+		}
+		os.Exit(0)
+	}
+}
+
+func init() {
+	if len(os.Args) > 2 && os.Args[1] == "survey2" {
+		p, err := loadProg(envOr("CEDAR_REPO", "/repo"), "amd64")
+		if err != nil {
+			fmt.Println(err)
+			os.Exit(2)
+		}
+		switch os.Args[2] {
+		case "extcalls":
+			cnt := map[string]int{}
+			for _, fn := range p.Funcs {
+				if testSupportPkgs[fnPkgPath(fn)] {
+					continue
+				}
+				for _, c := range callsIn(fn) {
+					cc := c.Common()
+					if f := cc.StaticCallee(); f != nil {
+						if !p.inRepo(f) {
+							n := f.String()
+							if o := f.Origin(); o != nil {
+								n = o.String() + "[generic]"
+							}
+							cnt[n]++
+						}
+					} else if cc.IsInvoke() {
+						if n := namedOf(cc.Value.Type()); n == nil || n.Obj().Pkg() == nil || !(n.Obj().Pkg().Path() == modPath || len(n.Obj().Pkg().Path()) > len(modPath) && n.Obj().Pkg().Path()[:len(modPath)] == modPath) {
+							cnt["invoke "+cc.Value.Type().String()+"."+cc.Method.Name()]++
+						}
+					} else if _, isB := cc.Value.(*ssa.Builtin); isB {
+						cnt["builtin "+cc.Value.Name()]++
+					} else {
+						cnt["dynamic "+cc.Value.Type().String()]++
+					}
+				}
+			}
+			var ks []string
+			for k := range cnt {
+				ks = append(ks, k)
+			}
+			sort.Strings(ks)
+			for _, k := range ks {
+				fmt.Printf("%4d %s\n", cnt[k], k)
+			}
+		}
+		os.Exit(0)
+	}
+}
+
+func init() {
+	if len(os.Args) > 2 && os.Args[1] == "survey3" {
+		p, err := loadProg(envOr("CEDAR_REPO", "/repo"), "amd64")
+		if err != nil {
+			fmt.Println(err)
+			os.Exit(2)
+		}
+		m := p.modref()
+		fmt.Println("rounds", m.rounds, "units", len(m.units))
+		switch os.Args[2] {
+		case "writes":
+			for _, u := range m.units {
+				if testSupportPkgs[fnPkgPath(u)] {
+					continue
+				}
+				s := m.sums[u]
+				if len(s.writes) == 0 && len(s.undecided) == 0 {
+					continue
+				}
+				if len(os.Args) > 3 && os.Args[3] == "exported" {
+					if u.Object() == nil || !u.Object().Exported() {
+						continue
+					}
+				}
+				fmt.Printf("%s: %s\n", fnQual(u), m.describe(u))
+			}
+		case "fn":
+			for _, u := range m.units {
+				if fnQual(u) == os.Args[3] {
+					fmt.Printf("%s: %s\n", fnQual(u), m.describe(u))
+				}
+			}
+		case "undec":
+			for k, v := range m.undec {
+				fmt.Println(p.pos(v), k)
 			}
 		}
 		os.Exit(0)
